@@ -764,6 +764,7 @@ from ..mutants import M  # noqa: E402
 _CV = "src/fandango/language/parse/convert.py"
 _G4 = "language/FandangoParser.g4"
 MUTANTS = [
+    M("lambda-handler-removed", "src/fandango/language/parse/convert.py", "    def visitLambdef(self, ctx: FandangoParser.LambdefContext):\n", "    def _unused_visitLambdef(self, ctx: FandangoParser.LambdefContext):\n", "R08-a"),
     M("one-element-tuple-collapsed", "src/fandango/language/parse/convert.py", "        if len(expressions) == 1 and not ctx.COMMA():\n", "        if len(expressions) == 1:\n", "R08-g"),
     M("one-element-subscript-tuple-collapsed", "src/fandango/language/parse/convert.py", "        if len(slice_trees) == 1 and not slices.COMMA():\n", "        if len(slice_trees) == 1:\n", "R08-g"),
     M("chained-comparison-not-rejoined", "src/fandango/language/parse/convert.py", "        left_chain = self._is_comparison_chain(ctx.expr(0))\n        right_chain = self._is_comparison_chain(ctx.expr(1))\n", "        left_chain = False\n        right_chain = False\n", "R08-f"),
